@@ -734,7 +734,7 @@ class BiproportionalEvaluator:
                 for party in all_parties:
                     if party not in labeled_parties:
                         is_downgradable = self._is_downgradable(
-                            quotients[d][party],
+                            quotients[d].get(party, 0),
                             result[d].get(party, 0)
                         )
                         if is_downgradable:
@@ -744,7 +744,7 @@ class BiproportionalEvaluator:
                 for d in quotients.keys():
                     if d not in labeled_districts:
                         is_upgradable = self._is_upgradable(
-                            quotients[d][party],
+                            quotients[d].get(party, 0),
                             result[d].get(party, 0)
                         )
                         if is_upgradable:
